@@ -880,8 +880,11 @@ class H2Stream:
         if self.state_machine.client and self._authority is None:
             self._authority = authority_from_headers(headers)
 
-        # store request method for _initialize_content_length
-        self.request_method = extract_method_header(headers)
+        # store request method for _initialize_content_length. Trailers carry
+        # no :method and must not make us forget the request's.
+        method = extract_method_header(headers)
+        if method is not None:
+            self.request_method = method
 
         return frames
 
@@ -1047,11 +1050,19 @@ class H2Stream:
             events[0].stream_ended = es_events[0]
             events += es_events
 
-        self._initialize_content_length(headers)
+        # Only the request or final response header block says how long the
+        # body is: informational responses and trailers do not.
+        if isinstance(events[0], (RequestReceived, ResponseReceived)):
+            self._initialize_content_length(headers)
 
         if isinstance(events[0], TrailersReceived):
             if not end_stream:
                 raise ProtocolError("Trailers must have END_STREAM set")
+
+        if end_stream:
+            # The message ends without (further) DATA frames: whatever body
+            # was promised must have arrived by now.
+            self._track_content_length(0, end_stream)
 
         hdr_validation_flags = self._build_hdr_validation_flags(events)
         events[0].headers = self._process_received_headers(
@@ -1315,6 +1326,13 @@ class H2Stream:
         if self.request_method == b'HEAD':
             self._expected_content_length = 0
             return
+
+        for n, v in headers:
+            if n == b':status' and v in (b'204', b'304'):
+                # Like responses to HEAD these never have a body, whatever
+                # their content-length says.
+                self._expected_content_length = 0
+                return
 
         for n, v in headers:
             if n == b'content-length':
